@@ -374,6 +374,15 @@ def enumerate_corruptions(schema, data, types, limit, rng_seed):
                         out.append(("wrong_kind", path, set_path(data, path, w)))
                 if path[-1] == "__typename":
                     out.append(("typename", path, set_path(data, path, "__Bogus__")))
+                    # the abstract type's OWN name is not a possible (object) type of its position either
+                    pp = list(path[:-1])
+                    pt, _pi = type_at(types, pp) if pp else (None, None)
+                    if pt is not None:
+                        named = pt.replace("[", "").replace("]", "").replace("!", "")
+                        from graphql import is_abstract_type
+                        st = schema.type_map.get(named)
+                        if st is not None and is_abstract_type(st) and v != named:
+                            out.append(("typename_self", path, set_path(data, path, named)))
         if isinstance(v, dict):
             for k, x in v.items():
                 walk(x, path + [k])
